@@ -270,11 +270,19 @@ func (p Printer) Nodes(ns []Node) string {
 		case Code:
 			sb.WriteString("<% " + p.Stmt(t.S) + " %>")
 		case EmitPartial:
-			sb.WriteString("<%= partial(" + p.lit(t.Name) + ", " + p.hash(t.Data) + ") %>")
+			if t.Var != "" {
+				sb.WriteString("<%= partial(" + p.lit(t.Name) + ", " + t.Var + ") %>")
+			} else {
+				sb.WriteString("<%= partial(" + p.lit(t.Name) + ", " + p.hash(t.Data) + ") %>")
+			}
 		case ContentFor:
 			sb.WriteString("<% contentFor(" + p.lit(t.Name) + ") { %>" + p.Nodes(t.Body) + "<% } %>")
 		case EmitContentOf:
-			sb.WriteString("<%= contentOf(" + p.lit(t.Name) + ", " + p.hash(t.Data) + ") %>")
+			if t.Var != "" {
+				sb.WriteString("<%= contentOf(" + p.lit(t.Name) + ", " + t.Var + ") %>")
+			} else {
+				sb.WriteString("<%= contentOf(" + p.lit(t.Name) + ", " + p.hash(t.Data) + ") %>")
+			}
 		case EmitBlock:
 			arg := ""
 			if t.Data != nil {
